@@ -146,7 +146,7 @@ def c12_2(ctx):
                     continue
                 # an explicit test selects it: it has to compare the number of bytes that are there with the WIDTH of the field
                 # (a test for `no byte at all` lets a 1-byte stump of a 2- or 4-byte field through)
-                if "len(" in o and ("struct_size" in o or "calcsize" in o or " < " in o):
+                if "len(" in o and ("struct_size" in o or "calcsize" in o or (" < " in o and "len(%s[" % d.params()[0] in o)):
                     ok = True
                 else:
                     only_empty.append(o)
